@@ -150,6 +150,8 @@ class E3(object):
                     prior = []
                 else:
                     prior.append(e)
+            elif k == "sql" and e["db"] == "usage" and e["stmt"].kind == "insert":
+                self._check_usage_insert(path, e)
             elif k == "sql" and e["db"] == "chan":
                 st = e["stmt"]
                 later = events[idx + 1:]
@@ -441,6 +443,30 @@ class E3(object):
             return False, "child rows are deleted selectively (%s)" % ",".join(sorted(eq))
         return False, "child delete is not keyed by its parent (%s)" % (
             e["stmt"].where.render() if e["stmt"].where else "no WHERE")
+
+    def _check_usage_insert(self, path, e):
+        """usage records are appended without looking first: a declared UNIQUE
+        key on their table makes the INSERT (and the command it belongs to)
+        fail when a record with the same values exists"""
+        st = e["stmt"]
+        table = self.repo.usage_schema().tables.get(st.table)
+        if table is None:
+            return
+        vals = e["binds"]["set"]
+        for key in [tuple(k) for k in table.unique_keys()]:
+            if table.autoinc_col() and key == (table.autoinc_col(),) and key[0] not in vals:
+                continue
+            if not all(c in vals for c in key):
+                continue
+            self.counts["unique"] += 1
+            conflict = str(st.extra.get("or") or "").upper()
+            ok = conflict in ("IGNORE", "REPLACE")
+            self.add("unique", "%s [usage key %s]%s" % (construct_of(e), ",".join(key),
+                                                         "" if ok else " !unguarded"),
+                     e, ok, "" if ok else "usage `%s` declares (%s) unique and the record is "
+                     "inserted without looking first: a second record with the same values "
+                     "raises IntegrityError inside the command that writes it" % (
+                         st.table, ",".join(key)), path, None if ok else "IntegrityError")
 
     # -- insert side -------------------------------------------------------------------
     def _check_insert(self, path, e, prior, loops, later, before):
